@@ -71,12 +71,12 @@ class World:
 
 
 # --------------------------------------------------------------- project ----
-EDITS = 11
+EDITS = 12
 
 
 def initial():
     return {'lib_build': 0, 'lib_pkg': 0, 'app_build': 0, 'mode': 0, 'dep': True, 'cls': 0, 'libsrc': 0,
-            'weak': 0, 'appvars': False, 'libpkgvar': False, 'x': 0, 'midsame': False}
+            'weak': 0, 'appvars': False, 'libpkgvar': False, 'x': 0, 'midsame': False, 'srcedit': 0}
 
 
 def apply_edit(st, e):
@@ -91,6 +91,7 @@ def apply_edit(st, e):
     elif e == 8: st['dep'] = not st['dep']
     elif e == 9: st['weak'] ^= 1
     elif e == 10: st['x'] ^= 1
+    elif e == 11: st['srcedit'] = st.get('srcedit', 0) + 1      # the user edits a file in the source workspace of lib
     return st
 
 
@@ -209,9 +210,32 @@ def hostile_tree(ws, bits):
 def read_out(path):
     try:
         with open(os.path.join(path, 'out.txt')) as f:
-            return f.read()
+            r = f.read()
     except OSError:
         return '<missing>'
+    try:
+        with open(os.path.join(path, 'user.txt')) as f:        # a file the user added to a source workspace
+            r += f.read()
+    except OSError:
+        pass
+    return r
+
+
+def lib_sources(root):
+    return glob.glob(os.path.join(root, 'dev', 'src', 'lib', '*', 'workspace')) + \
+        glob.glob(os.path.join(root, 'work', 'lib', 'src', '*', 'workspace'))
+
+
+def sync_sources(root, st):
+    """the user's edits of the lib sources (project state outside the recipes)"""
+    n = st.get('srcedit', 0)
+    for ws in lib_sources(root):
+        p = os.path.join(ws, 'user.txt')
+        if n:
+            with open(p, 'w') as f:
+                f.write('user edit %d\n' % n)
+        elif os.path.exists(p):
+            os.unlink(p)
 
 
 async def fake_run(self, args, cwd, stdout=None, stderr=None, check=False, **kw):
@@ -406,6 +430,17 @@ def close_handles(killed):
 
 def invoke(w, st, release, extra=()):
     """one Bob invocation; returns ('ok'|'error'|'killed', dist outputs {package: token}, residues)"""
+    if st.get('srcedit') and not lib_sources(w.root) and '-B' not in extra and w.fault is None:
+        # the edited sources have to exist before they can be edited: check out first (as a user would)
+        o = _invoke(w, st, release, tuple(x for x in extra if not x.startswith('--download') and x != '--upload') + ('-B',))
+        if o[0] != 'ok':
+            return o
+    os.makedirs(w.root, exist_ok=True)
+    sync_sources(w.root, st)
+    return _invoke(w, st, release, extra)
+
+
+def _invoke(w, st, release, extra=()):
     World.cur = w
     w.execs = []
     w.saves = 0
@@ -758,9 +793,32 @@ def artifacts(arch):
     return sorted(out)
 
 
+def repack(path):
+    """a well-formed artifact whose content no longer matches its audit trail (re-packed with one file changed)"""
+    import gzip as _gzip
+    import tarfile as _tarfile
+    raw = _gzip.decompress(open(path, 'rb').read())
+    tin = _tarfile.open(fileobj=io.BytesIO(raw))
+    out = io.BytesIO()
+    tout = _tarfile.open(fileobj=out, mode='w', format=_tarfile.PAX_FORMAT, pax_headers=dict(tin.pax_headers))
+    changed = False
+    for m in tin:
+        data = tin.extractfile(m).read() if m.isreg() else None
+        if m.name == 'content/out.txt':
+            data = b'foreign content'
+            m.size = len(data)
+            changed = True
+        tout.addfile(m, io.BytesIO(data) if data is not None else None)
+    tout.close()
+    if not changed:
+        raise V.HarnessGap('artifact without content/out.txt')
+    return _gzip.compress(out.getvalue())
+
+
 def pack_history(hostile, kind, idx, pos):
     """C08: workspace A uploads (lib's package result is a hostile tree); optionally ONE artifact is damaged (kind 1: truncated
-    to pos bytes, 2: byte pos inverted, 3: replaced by another artifact of the archive, 4: replaced by garbage); workspace B at
+    to pos bytes, 2: byte pos inverted, 3: replaced by another artifact of the archive, 4: replaced by garbage, 5: re-packed with one
+    content file changed but the old audit trail); workspace B at
     another location builds with --download=deps"""
     install()
     cwd = os.getcwd()
@@ -795,6 +853,8 @@ def pack_history(hostile, kind, idx, pos):
                 # (a complete artifact of ANOTHER build-id under this name is accepted by Bob: the audit trail inside is
                 # consistent with its content and its build-id is not compared -- observation, not part of the plan)
                 new = open([a for a in arts if a != damaged][0], 'rb').read()
+            elif kind == 5:
+                new = repack(damaged)
             else:
                 new = b'this is not a gzip stream' * 10
             os.chmod(damaged, 0o644)
@@ -860,9 +920,24 @@ def check_c08_tree(hostile: int) -> bool:
     return V.verdict(ok, fact)
 
 
+def check_c07_foreign(kind: int, idx: int) -> bool:
+    """C07 "whatever the archive contains": an artifact name holding garbage (4) or a well-formed artifact whose content is not
+    the one its audit trail describes (5)
+    pre: 4 <= kind <= 5
+    pre: 0 <= idx < 2
+    post: _
+    """
+    V.enter()
+    k = V.concretize(kind, 6, 4)
+    i = V.concretize(idx, 2)
+    with V.fast():
+        ok, fact = pack_history(0, k, i, 0)
+    return V.verdict(ok, fact)
+
+
 def check_c08_damage(kind: int, idx: int, pos: int) -> bool:
     """
-    pre: 1 <= kind <= 4
+    pre: 1 <= kind <= 5
     pre: 0 <= idx < 2
     pre: 0 <= pos < V.SHARD[1]
     pre: kind == V.SHARD[0]
@@ -879,14 +954,15 @@ def check_c08_damage(kind: int, idx: int, pos: int) -> bool:
     return V.verdict(ok, fact)
 
 
-def check_c07(e1: int, fresh2: bool, d2: int, u2: bool, again: bool, d3: int, fault: int, d4: int) -> bool:
+def check_c07(e1: int, fresh2: bool, d2: int, u2: bool, again: int, d3: int, fault: int, d4: int) -> bool:
     """
     pre: 0 <= e1 < EDITS
+    pre: 0 <= again <= 2
     pre: 0 <= d2 <= 2 and 0 <= d3 <= 2 and 0 <= d4 <= 2
     pre: -1 <= fault < 8
     pre: e1 == V.SHARD[0]
     pre: fault >= 0 or d4 == 0
-    pre: V.SHARD[1] or (fault < 0 and not again) or (fault >= 0 and fault % 3 == 2 and u2 and not again)
+    pre: V.SHARD[1] or (fault < 0 and again != 1) or (fault >= 0 and fault % 3 == 2 and u2 and again == 0)
     post: _
     """
     V.enter()
@@ -895,9 +971,11 @@ def check_c07(e1: int, fresh2: bool, d2: int, u2: bool, again: bool, d3: int, fa
     a3 = V.concretize(d3, 3)
     a4 = V.concretize(d4, 3)
     f = V.concretize(fault, 8, -1)
-    fr, up, ag = bool(fresh2), bool(u2), bool(again)
+    fr, up = bool(fresh2), bool(u2)
+    ag = V.concretize(again, 3)
     with V.fast():
-        ok, fact = archive_history(e, fr, a2, up, e if ag else 0, a3, f, a4)
+        # the edit before the third invocation: nothing / the same edit once more (mostly: reverted) / the user edits the sources
+        ok, fact = archive_history(e, fr, a2, up, (0, e, 11)[ag], a3, f, a4)
     return V.verdict(ok, fact)
 
 
@@ -915,6 +993,7 @@ def PLAN(tier):
     P.append(dict(fn='check_c06', shard=[0], timeout=600))
     for e in range(EDITS):
         P.append(dict(fn='check_c07', shard=[e, not q], timeout=900 if q else 3000))
+    P.append(dict(fn='check_c07_foreign', shard=[0], timeout=600))
     P.append(dict(fn='check_c08_tree', shard=[0], timeout=900))
     # artifacts are 1.7 - 3 kB (plain project) / up to 12 kB (hostile tree): shard = [kind, positions, artifact, tree, stride];
     # thorough: every truncation length and every byte position of the plain artifacts
@@ -925,6 +1004,7 @@ def PLAN(tier):
             else:
                 P.append(dict(fn='check_c08_damage', shard=[k, 3000, i, 0, 1], timeout=3000))
                 P.append(dict(fn='check_c08_damage', shard=[k, 400, i, 63, 31], timeout=3000))
-    P.append(dict(fn='check_c08_damage', shard=[4, 1, -1, 0, 1], timeout=600))
-    P.append(dict(fn='check_c08_damage', shard=[4, 1, -1, 63, 1], timeout=600))
+    for k in (4, 5):
+        P.append(dict(fn='check_c08_damage', shard=[k, 1, -1, 0, 1], timeout=600))
+        P.append(dict(fn='check_c08_damage', shard=[k, 1, -1, 63, 1], timeout=600))
     return P
